@@ -1000,7 +1000,17 @@ func (fg *FuncGen) calleeKey(e SExpr, env *SpecEnv) string {
 func calleeKeyOf(e SExpr) string {
 	if sel, ok := e.(*SSel); ok {
 		if t, ok := sel.X.(*SType); ok {
-			return "(" + strings.ReplaceAll(t.Text, " ", "") + ")." + sel.Name
+			txt := strings.ReplaceAll(t.Text, " ", "")
+			// (*pkg.T).M  ->  pkg.(*T).M   (the key under which calls of external methods are recorded)
+			bare := strings.TrimPrefix(txt, "*")
+			if i := strings.LastIndex(bare, "."); i > 0 {
+				star := ""
+				if strings.HasPrefix(txt, "*") {
+					star = "*"
+				}
+				return bare[:i] + ".(" + star + bare[i+1:] + ")." + sel.Name
+			}
+			return "(" + txt + ")." + sel.Name
 		}
 	}
 	return strings.ReplaceAll(e.String(), " ", "")
